@@ -88,3 +88,27 @@ def distinct_mailboxes(timeout_ms):
     a, b = Const("n1", INT), Const("n2", INT)
     return [_prove("lemma.C03.distinct", [I.I6(S), np_.live[a], np_.live[b], a != b],
                    np_.cols["mailbox_id"][a] != np_.cols["mailbox_id"][b], timeout_ms)]
+
+
+def induction_base(timeout_ms):
+    """Inv.init / Inv.restart: the invariants every event handler requires hold (a) on the empty database with an
+    empty heap and (b) after a restart - any database satisfying the database invariants, registries
+    empty, every connection dead - because all heap invariants are quantified over alive connections
+    and registered objects."""
+    from pvc.state import State
+    from pvc import heap as H
+    from . import invariants as I
+    from . import heapinv as HI
+    from .server import apps_wf, GH3
+    out = []
+    S = State.symbolic("L")
+    empty = [t.none(lambda r: BoolVal(True)) for t in (I.NP(S), I.NS(S), I.MB(S), I.MS(S), I.MSG(S))] + [S.np_next >= 1]
+    for n in I.DB_INV:
+        out.append(_prove("lemma.Inv.init." + n, empty, I.NAMED[n](S), timeout_ms))
+    alive = S.heap["WebSocketServer.alive"]
+    reset = [FA([INT], lambda c: Not(alive[c])),
+             S.heap["Server._apps"][H.SERVER] == K(Str, IntVal(0)),
+             FA([INT, INT], lambda M, c: Not(S.heap["Mailbox._listeners"][M][c]))]
+    for name, inv in (("apps_wf", apps_wf(S)), ("GH3", GH3(S)), ("GH4", HI.GH4(S)), ("GH5", HI.GH5(S))):
+        out.append(_prove("lemma.Inv.restart." + name, reset, inv, timeout_ms))
+    return out
